@@ -1,47 +1,701 @@
+// Package c15: contract execution results do not depend on Go map iteration order.
+//
+// Programs of the modelled NeoVM fragment (Model/VmMapExec.v) are compiled to byte code and invoked
+// through smartcontract.SmartContract / NeoVmService.Invoke, each `Repeats` times in fresh engines
+// over fresh state (a subset additionally in fresh processes). ORACLE: all invocations of one
+// program must show the same outcome (success/failure and error text, returned value,
+// notifications, storage write set). CORRESPONDENCE: the distinct outcomes of every program go to
+// Coq, which requires them to be possible in the model, and to be exactly the model's single
+// outcome when the program is outside the finding class.
 package c15
 
 import (
 	"fmt"
 	"os"
+	"sort"
+	"time"
+
+	"github.com/ontio/ontology/common/log"
+	vmtypes "github.com/ontio/ontology/vm/neovm/types"
 
 	_ "verif/harness/drivers/c14" // Gen/VmValueConsts.v producer (Model/VmMapOrder.v builds on Model/VmValue.v)
 	"verif/harness/hx"
 )
 
-func init() { hx.Register("C15", Run) }
+func init() {
+	log.InitLog(log.FatalLog, os.Stderr) // ConvertNeoVmValueHexString logs every refused value
+	hx.Register("C15", Run)
+}
 
-func witness(n int) Prog {
-	p := Prog{PushInt(7)}
-	p = p.add(chain(n)...)
-	p = p.add(I("newmap"), I("toalt"))
-	p = p.add(setFromAlt(PushInt(1))...)
-	p = p.add(PushInt(0))
-	p = p.add(setFromAlt(PushInt(2))...)
-	p = p.add(I("fromalt"), I("serialize"))
+const (
+	// in-process repetitions per program ("each run 64x in fresh engines")
+	Repeats = 64
+	// Coq-side bound on the nesting of Serialize (Model: fuel)
+	coqFuel = 24
+	// finding class of the unrepaired detector (F4), as listed in known_findings.d/C15.json
+	classDetector = "maporder:cycle-detector-first-entry"
+	classOther    = "maporder:other"
+	// the program W15_prog of Props/C15.v
+	witnessName = "witness-chain10"
+)
+
+// Input is one generated (or replayed) test input.
+type Input struct {
+	Kind string `json:"kind"` // run | stringify
+	Name string `json:"name"` // generator family
+	Prog Prog   `json:"prog"`
+}
+
+// ---------------------------------------------------------------- generators
+
+type pgen struct{ c *hx.Ctx }
+
+func (g *pgen) n(k int) int { return g.c.Intn(k) }
+
+// prim: a primitive push.
+func (g *pgen) prim() Ins {
+	switch g.n(4) {
+	case 0:
+		return PushInt(int64(g.n(18)) - 1)
+	case 1:
+		return PushBytes(g.c.Bytes(1 + g.n(4)))
+	case 2:
+		return PushBytes([]byte{byte(g.n(3))})
+	}
+	return PushInt(int64(g.n(4)))
+}
+
+// key: map keys, biased to collisions of the key image (GetMapKey): PInt 1 / bytes 01, PInt 0 /
+// empty image vs bytes 00, prefixes of one another (sort order), negative numbers (0xff..).
+func (g *pgen) key() Ins {
+	pool := []Ins{PushInt(0), PushInt(1), PushInt(2), PushInt(3), PushInt(16), PushInt(-1),
+		PushBytes([]byte{1}), PushBytes([]byte{0}), PushBytes([]byte{2, 0}), PushBytes([]byte{2}), PushBytes([]byte{0xff}),
+		PushBytes([]byte("a")), PushBytes([]byte("ab")), PushBytes([]byte("b")), PushBytes([]byte{0x80}), PushBytes([]byte{0x7f, 1})}
+	if g.n(8) == 0 {
+		return PushBytes(g.c.Bytes(1 + g.n(3)))
+	}
+	return pool[g.n(len(pool))]
+}
+
+func appendFromAlt() Prog { return Prog{I("dupfromalt"), I("swap"), I("append")} }
+
+// value leaves one acyclic value on the evaluation stack (sub-values may be shared).
+func (g *pgen) value(depth int) Prog {
+	if depth <= 0 || g.n(10) < 3 {
+		return Prog{g.prim()}
+	}
+	switch g.n(10) {
+	case 0, 1, 2: // array built by APPEND
+		p := Prog{PushInt(0), I("newarray"), I("toalt")}
+		for i, n := 0, g.n(4); i < n; i++ {
+			p = p.add(g.value(depth - 1)...).add(appendFromAlt()...)
+		}
+		return p.add(I("fromalt"))
+	case 3: // NEWARRAY n (default elements), one element overwritten
+		n := 1 + g.n(4)
+		p := Prog{PushInt(int64(n)), I("newarray"), I("toalt")}
+		p = p.add(g.value(depth - 1)...).add(setFromAlt(PushInt(int64(g.n(n))))...)
+		return p.add(I("fromalt"))
+	case 4: // the same object twice
+		p := g.value(depth-1).add(I("dup"), PushInt(0), I("newarray"), I("toalt"))
+		p = p.add(appendFromAlt()...).add(appendFromAlt()...)
+		return p.add(I("fromalt"))
+	default: // map
+		p := Prog{I("newmap"), I("toalt")}
+		for i, n := 0, g.n(5); i < n; i++ {
+			p = p.add(g.value(depth - 1)...).add(setFromAlt(g.key())...)
+		}
+		return p.add(I("fromalt"))
+	}
+}
+
+// mapValue leaves a map with n entries on the evaluation stack and returns the keys it used.
+func (g *pgen) mapValue(n, depth int) (Prog, []Ins) {
+	p := Prog{I("newmap"), I("toalt")}
+	var keys []Ins
+	for i := 0; i < n; i++ {
+		k := g.key()
+		keys = append(keys, k)
+		p = p.add(g.value(depth)...).add(setFromAlt(k)...)
+	}
+	return p.add(I("fromalt")), keys
+}
+
+// ops: what a contract does with the container on top of the stack.
+func (g *pgen) ops(keys []Ins) Prog {
+	pick := func() Ins {
+		if len(keys) > 0 && g.n(4) != 0 {
+			return keys[g.n(len(keys))]
+		}
+		return g.key()
+	}
+	var p Prog
+	for i, n := 0, 1+g.n(4); i < n; i++ {
+		switch g.n(16) {
+		case 0:
+			p = p.add(I("dup"), I("keys"), I("notify"))
+		case 1:
+			p = p.add(I("dup"), I("values"), I("notify"))
+		case 2:
+			p = p.add(I("dup"), I("serialize"), I("notify"))
+		case 3, 4:
+			p = p.add(I("dup"), I("serialize"), PushBytes([]byte{byte('k' + g.n(2))}), I("put"))
+		case 5:
+			p = p.add(I("dup"), pick(), I("haskey"), I("notify"))
+		case 6:
+			p = p.add(I("dup"), pick(), I("pickitem"), I("notify"))
+		case 7:
+			p = p.add(I("dup"), pick(), I("remove"))
+		case 8:
+			p = p.add(I("dup"), pick(), g.prim(), I("setitem"))
+		case 9:
+			p = p.add(I("dup"), I("keys"), I("arraysize"), I("notify"))
+		case 10:
+			p = p.add(I("dup"), I("values"), I("serialize"), PushBytes([]byte("v")), I("put"))
+		case 11:
+			p = p.add(I("dup"), I("keys"), I("serialize"), PushBytes([]byte("q")), I("put"))
+		case 12:
+			p = p.add(I("dup"), I("values"), PushInt(0), I("pickitem"), I("notify"))
+		case 13:
+			p = p.add(I("dup"), I("arraysize"))
+		case 14:
+			p = p.add(I("dup"), I("dup"), pick(), I("swap"), I("setitem"), I("dup"), I("keys"), I("notify")) // m[k] = m, then KEYS
+		default:
+			p = p.add(I("dup"), I("keys"), I("swap"), I("values"), I("drop"))
+		}
+	}
+	switch g.n(5) {
+	case 0:
+		p = p.add(I("keys"))
+	case 1:
+		p = p.add(I("values"))
+	case 2:
+		p = p.add(I("serialize"))
+	}
 	return p
+}
+
+func wrapInMap(key Ins) Prog {
+	return Prog{I("newmap"), I("toalt")}.add(setFromAlt(key)...).add(I("fromalt"))
+}
+
+// deepValue: a primitive inside n nested one-element containers (first-element chain); links are
+// arrays, or single-entry maps when mapsToo.
+func (g *pgen) deepValue(n int, mapsToo bool) Prog {
+	p := Prog{PushInt(7)}
+	for i := 0; i < n; i++ {
+		if mapsToo && g.n(3) == 0 {
+			p = p.add(wrapInMap(g.key())...)
+		} else {
+			p = p.add(wrapInArray()...)
+		}
+	}
+	return p
+}
+
+// ambiguous: a map with one deep value (chain of n containers) and `shallow` primitive values,
+// entries inserted in the given position, optionally nested into an outer array (first or second
+// position), then serialized and stored / notified.
+func (g *pgen) ambiguous(n, shallow, deepPos int, outer int, mapsToo bool, tail int) Prog {
+	p := Prog{I("newmap"), I("toalt")}
+	used := map[string]bool{}
+	fresh := func() Ins {
+		for {
+			k := g.key()
+			code, _ := Prog{k}.Compile()
+			// distinct key images are needed for distinct entries; distinct instructions are a cheap
+			// approximation, PInt 1 / bytes 01 style collisions just make the map smaller
+			if !used[string(code)] {
+				used[string(code)] = true
+				return k
+			}
+		}
+	}
+	for i := 0; i <= shallow; i++ {
+		if i == deepPos {
+			p = p.add(g.deepValue(n, mapsToo)...).add(setFromAlt(fresh())...)
+		}
+		if i < shallow {
+			p = p.add(g.prim()).add(setFromAlt(fresh())...)
+		}
+	}
+	p = p.add(I("fromalt"))
+	switch outer {
+	case 1: // [M]
+		p = p.add(wrapInArray()...)
+	case 2: // [5, M]
+		p = p.add(PushInt(0), I("newarray"), I("toalt"), PushInt(5)).add(appendFromAlt()...).add(appendFromAlt()...).add(I("fromalt"))
+	}
+	switch tail {
+	case 0:
+		p = p.add(I("serialize"))
+	case 1:
+		p = p.add(I("serialize"), PushBytes([]byte("k")), I("put"))
+	case 2:
+		p = p.add(I("dup"), I("serialize"), I("notify"), I("keys"))
+	}
+	return p
+}
+
+// selfRef: a map that contains itself under one key next to `shallow` primitive entries.
+func (g *pgen) selfRef(shallow, selfPos int, tail int) Prog {
+	p := Prog{I("newmap"), I("toalt")}
+	for i := 0; i <= shallow; i++ {
+		if i == selfPos {
+			p = p.add(I("dupfromalt")).add(setFromAlt(PushInt(int64(10 + i)))...)
+		}
+		if i < shallow {
+			p = p.add(g.prim()).add(setFromAlt(PushInt(int64(i)))...)
+		}
+	}
+	p = p.add(I("fromalt"))
+	switch tail {
+	case 0:
+		p = p.add(I("serialize"))
+	case 1:
+		p = p.add(I("dup"), I("keys"), I("notify"), I("dup"), I("values"), I("arraysize"), I("notify"))
+	case 2:
+		p = p.add(I("dup"), I("values"), I("notify")) // Notify refuses maps
+	case 3:
+		p = p.add(I("dup"), PushInt(10), I("pickitem"), PushInt(10), I("haskey"), I("notify"), I("keys"))
+	}
+	return p
+}
+
+var soupOps = []string{"newmap", "newarray", "dup", "swap", "drop", "over", "pick", "toalt", "fromalt", "dupfromalt",
+	"setitem", "append", "pickitem", "remove", "haskey", "keys", "values", "arraysize", "notify", "put"}
+
+// soup: a short random instruction sequence (mostly faults; no Serialize, so that a cycle that the
+// detector misses - C14's finding - cannot send it into a 1 MiB deep recursion).
+func (g *pgen) soup() Prog {
+	var p Prog
+	for i, n := 0, 1+g.n(12); i < n; i++ {
+		switch g.n(3) {
+		case 0:
+			p = p.add(g.prim())
+		default:
+			p = p.add(I(soupOps[g.n(len(soupOps))]))
+		}
+	}
+	return p
+}
+
+// ---------------------------------------------------------------- execution and oracle
+
+type runSet struct {
+	outs  []Outcome // distinct outcomes, in order of first appearance
+	count []int
+}
+
+func (r *runSet) add(o Outcome) {
+	k := o.Key()
+	for i := range r.outs {
+		if r.outs[i].Key() == k {
+			r.count[i]++
+			return
+		}
+	}
+	r.outs = append(r.outs, o)
+	r.count = append(r.count, 1)
+}
+
+// classOf: the known finding is "refused as circular in some runs, ONE other outcome in the rest"
+// (the detector's verdict is the only thing that varies); any other variation is new.
+func classOf(outs []Outcome) string {
+	circ, rest := 0, 0
+	for _, o := range outs {
+		if o.Fault == "FSer ECircular" {
+			circ++
+		} else {
+			rest++
+		}
+	}
+	if circ >= 1 && rest == 1 {
+		return classDetector
+	}
+	return classOther
+}
+
+type driver struct {
+	c        *hx.Ctx
+	inputs   []Input
+	codes    [][]byte
+	sets     []*runSet
+	childSel []int // indices run in child processes as well
+}
+
+func (d *driver) add(in Input, child bool) {
+	code, err := in.Prog.Compile()
+	if err != nil {
+		panic(fmt.Sprintf("%s: %v", in.Name, err))
+	}
+	d.inputs = append(d.inputs, in)
+	d.codes = append(d.codes, code)
+	d.sets = append(d.sets, &runSet{})
+	if child {
+		d.childSel = append(d.childSel, len(d.inputs)-1)
+	}
+}
+
+func (d *driver) runAll(repeats, children int) {
+	c := d.c
+	// fresh processes first, concurrently with the in-process repetitions (starting an ontology
+	// binary costs seconds: package initialisation of the wasm validator)
+	type childRes struct {
+		outs []Outcome
+		err  error
+	}
+	var codes [][]byte
+	for _, i := range d.childSel {
+		codes = append(codes, d.codes[i])
+	}
+	var pending []chan childRes
+	if len(codes) > 0 {
+		for k := 0; k < children; k++ {
+			ch := make(chan childRes, 1)
+			pending = append(pending, ch)
+			go func() {
+				outs, err := runInChild(codes, 120*time.Second)
+				ch <- childRes{outs, err}
+			}()
+		}
+	}
+	for i, in := range d.inputs {
+		if in.Kind != "run" {
+			continue
+		}
+		for k := 0; k < repeats; k++ {
+			d.sets[i].add(RunOnce(d.codes[i]))
+			c.Eval()
+		}
+		// the witness of the known finding is probed until both outcomes have shown (the rare
+		// iteration order comes up about once in 8 runs)
+		for k := 0; in.Name == witnessName && len(d.sets[i].outs) < 2 && k < 4096; k++ {
+			d.sets[i].add(RunOnce(d.codes[i]))
+			c.Eval()
+		}
+	}
+	for _, ch := range pending {
+		r := <-ch
+		if r.err != nil {
+			// infrastructure only (a crash of the implementation would already have taken this process
+			// down during the in-process repetitions)
+			c.Note("child process failed: " + r.err.Error())
+			c.Count("child-process-failed")
+			continue
+		}
+		for j, i := range d.childSel {
+			d.sets[i].add(r.outs[j])
+			c.Eval()
+		}
+		c.Count("child-processes")
+	}
+}
+
+func describe(rs *runSet) []map[string]interface{} {
+	var out []map[string]interface{}
+	for i, o := range rs.outs {
+		out = append(out, map[string]interface{}{"runs": rs.count[i], "outcome": o})
+	}
+	return out
+}
+
+func (d *driver) judge() {
+	c := d.c
+	type pendingFail struct {
+		class string
+		in    Input
+		got   interface{}
+	}
+	var fails []pendingFail
+	defer func() {
+		// shortest failing program first (hx keeps the first three inputs of a class)
+		sort.SliceStable(fails, func(i, j int) bool { return len(fails[i].in.Prog) < len(fails[j].in.Prog) })
+		for _, f := range fails {
+			c.Fail(f.class, "same invocation on the same state: differing success/failure, return value, notifications or write set",
+				f.in, f.got, "one outcome")
+		}
+	}()
+	for i, in := range d.inputs {
+		if in.Kind != "run" {
+			continue
+		}
+		rs := d.sets[i]
+		c.Count("family:" + in.Name)
+		c.Count(fmt.Sprintf("proglen:%d0s", len(in.Prog)/10))
+		for _, o := range rs.outs {
+			switch {
+			case o.Panic != "":
+				c.Count("outcome:panic")
+				c.Fail("panic:"+in.Name, "invocation panicked", in, o.Panic, nil)
+			case o.Fault != "":
+				c.Count("outcome:" + o.Fault)
+			default:
+				c.Count("outcome:halt")
+				if len(o.Notes) > 0 {
+					c.Count("halt-with:notifications")
+				}
+				if len(o.Writes) > 0 {
+					c.Count("halt-with:writes")
+				}
+			}
+			if o.Fault == "?" {
+				c.Fail("unclassified-error", "error text outside the model's fault enum", in, o.Msg, nil)
+			}
+		}
+		if len(rs.outs) > 1 {
+			cl := classOf(rs.outs)
+			c.Count("order-dependent:" + in.Name)
+			fails = append(fails, pendingFail{cl, in, describe(rs)})
+		}
+		if len(in.Prog) >= 8 && (len(rs.outs) > 1 || rs.outs[0].Fault == "" || rs.outs[0].Fault == "FSer ECircular") {
+			c.Nontrivial(in.Prog.String())
+		}
+		// correspondence case
+		var obs []string
+		ok := true
+		for _, o := range rs.outs {
+			s, good := o.coq()
+			if !good {
+				ok = false
+				break
+			}
+			obs = append(obs, s)
+		}
+		if ok {
+			c.Case(fmt.Sprintf("CRun %d%%nat %s %s", coqFuel, in.Prog.Coq(), hx.CoqList(obs)),
+				map[string]interface{}{"input": in, "observed": describe(rs)})
+		}
+	}
+}
+
+// stringifyCase: build the value in-process through the executor, call Stringify repeatedly.
+func (d *driver) stringifyCase(in Input) {
+	c := d.c
+	code, err := in.Prog.Compile()
+	if err != nil {
+		panic(err)
+	}
+	seen := map[string]int{}
+	var order []string
+	for k := 0; k < Repeats; k++ {
+		v, ok := returnedValue(code)
+		c.Eval()
+		if !ok {
+			return
+		}
+		var res string
+		p, msg := hx.Recover(func() {
+			s, err := v.Stringify()
+			if err != nil {
+				res = "StrCircular"
+			} else {
+				res = "StrOk " + hx.CoqBytes([]byte(s))
+			}
+		})
+		if p {
+			c.Fail("panic:stringify", "Stringify panicked", in, msg, nil)
+			return
+		}
+		if seen[res] == 0 {
+			order = append(order, res)
+		}
+		seen[res]++
+	}
+	c.Count("family:stringify:" + in.Name)
+	if len(order) > 1 {
+		c.Count("order-dependent:stringify")
+		cl := classOther
+		if len(order) == 2 && seen["StrCircular"] > 0 {
+			cl = classDetector
+		}
+		c.Fail(cl, "Stringify of the same value: differing results", in, order, "one result")
+	}
+	c.Case(fmt.Sprintf("CStringify %d%%nat %s %s", coqFuel, in.Prog.Coq(), hx.CoqList(order)),
+		map[string]interface{}{"input": in, "observed": order})
+}
+
+// returnedValue runs the code and hands back the live value on top of the stack.
+func returnedValue(code []byte) (*vmtypes.VmValue, bool) {
+	v, err := invokeRaw(code)
+	if err != nil || v == nil {
+		return nil, false
+	}
+	return v, true
+}
+
+// ---------------------------------------------------------------- Run
+
+func witnessProg(n int) Prog {
+	p := Prog{PushInt(7)}.add(chain(n)...)
+	p = p.add(I("newmap"), I("toalt")).add(setFromAlt(PushInt(1))...)
+	p = p.add(PushInt(0)).add(setFromAlt(PushInt(2))...)
+	return p.add(I("fromalt"), I("serialize"))
 }
 
 func Run(c *hx.Ctx) {
 	c.CoqModule("Corr.C15")
-	for _, n := range []int{9, 10, 11} {
-		p := witness(n)
-		code, err := p.Compile()
-		if err != nil {
-			panic(err)
+	g := &pgen{c: c}
+	d := &driver{c: c}
+
+	// 1. replay
+	var rin Input
+	if c.ReplayInput(&rin) {
+		if rin.Kind == "stringify" {
+			d.stringifyCase(rin)
+			return
 		}
-		seen := map[string]int{}
-		for i := 0; i < 64; i++ {
-			seen[RunOnce(code).Key()]++
-		}
-		for k, v := range seen {
-			fmt.Fprintln(os.Stderr, n, v, k)
+		d.add(rin, true)
+		d.runAll(8*Repeats, 4)
+		d.judge()
+		return
+	}
+	// 2. corpus
+	for _, raw := range c.CorpusInputs() {
+		var in Input
+		if jsonUnmarshal(raw, &in) == nil && len(in.Prog) > 0 {
+			if in.Kind == "stringify" {
+				d.stringifyCase(in)
+			} else {
+				d.add(in, true)
+			}
 		}
 	}
-	p := Prog{I("newmap"), I("dup"), PushInt(3), PushBytes([]byte{1, 2}), I("setitem"), I("dup"), PushBytes([]byte{9}), PushInt(5), I("setitem"),
-		I("dup"), I("keys"), I("notify"), I("dup"), I("values"), I("notify"), I("dup"), I("serialize"), PushBytes([]byte("k")), I("put")}
-	code, _ := p.Compile()
-	o := RunOnce(code)
-	fmt.Fprintln(os.Stderr, o.Key())
-	s, _ := o.coq()
-	fmt.Fprintln(os.Stderr, s)
+	// 3a. the witness of Props/C15.v (W15_prog) and its neighbours, on every run
+	for _, n := range []int{8, 9, 10, 11, 12} {
+		d.add(Input{Kind: "run", Name: fmt.Sprintf("witness-chain%d", n), Prog: witnessProg(n)}, true)
+	}
+	// 3b. deep/shallow maps around the depth limit
+	for _, n := range []int{8, 9, 10, 11} {
+		for k := 0; k < c.N(6, 30); k++ {
+			shallow := 1 + g.n(3)
+			outer := g.n(3)
+			nn := n
+			if outer == 1 {
+				nn = n - 1
+			}
+			in := Input{Kind: "run", Name: "deep-shallow-map", Prog: g.ambiguous(nn, shallow, g.n(shallow+1), outer, g.n(2) == 0, g.n(3))}
+			d.add(in, k < 2)
+		}
+	}
+	// 3c. self-referential maps
+	for k := 0; k < c.N(16, 80); k++ {
+		shallow := g.n(4)
+		d.add(Input{Kind: "run", Name: "self-ref-map", Prog: g.selfRef(shallow, g.n(shallow+1), k%4)}, k < 4)
+	}
+	for _, p := range []Prog{
+		{PushInt(0), I("newarray"), I("dup"), I("dup"), I("append"), I("serialize")},                      // a = [a]
+		{PushInt(0), I("newarray"), I("dup"), I("dup"), I("append"), I("notify")},                         // Notify on a = [a]
+		{PushInt(0), I("newarray"), I("dup"), I("dup"), I("append"), I("dup"), I("arraysize"), I("drop")}, // returned cyclic value
+		{I("newmap"), I("dup"), I("dup"), PushInt(1), I("swap"), I("setitem"), I("serialize")},            // m = {1: m}
+		{I("newmap"), I("dup"), I("dup"), PushInt(1), I("swap"), I("setitem")},                            // returned cyclic map
+	} {
+		d.add(Input{Kind: "run", Name: "self-ref-fixed", Prog: p}, true)
+	}
+	// 3d. generic map programs
+	for k := 0; k < c.N(360, 4000); k++ {
+		var p Prog
+		var keys []Ins
+		if g.n(3) == 0 {
+			p = g.value(3)
+		} else {
+			p, keys = g.mapValue(g.n(6), 2)
+		}
+		p = p.add(g.ops(keys)...)
+		d.add(Input{Kind: "run", Name: "generic-map", Prog: p}, k < 24)
+	}
+	// 3e. large maps: KEYS / VALUES at the array size limit (1024 / 1025 entries would need long
+	// programs; the limit itself is exercised through NEWARRAY + APPEND on arrays)
+	for _, n := range []int{16, 16} {
+		p := Prog{I("newmap"), I("toalt")}
+		for i := 0; i < n; i++ {
+			p = p.add(PushInt(int64(i))).add(setFromAlt(PushBytes([]byte{byte(200 - 7*i), byte(i)}))...)
+		}
+		p = p.add(I("fromalt"), I("dup"), I("keys"), I("notify"), I("dup"), I("values"), I("notify"), I("serialize"), PushBytes([]byte("big")), I("put"))
+		d.add(Input{Kind: "run", Name: "many-keys", Prog: p}, true)
+	}
+	// 3f. limits and conversions (boundary values)
+	rep := func(in Ins, n int) Prog {
+		var p Prog
+		for i := 0; i < n; i++ {
+			p = append(p, in)
+		}
+		return p
+	}
+	n1024, n1025 := PushBytes([]byte{0x00, 0x04}), PushBytes([]byte{0x01, 0x04})
+	pair := Prog{PushInt(2), I("newarray")}
+	for _, p := range []Prog{
+		{n1024, I("newarray"), PushInt(1), I("append")}, // Append at MAX_ARRAY_SIZE
+		{n1024, I("newarray"), I("arraysize")},          // 1024 elements
+		{n1025, I("newarray")},                          // count > MAX_ARRAY_SIZE
+		{PushInt(-1), I("newarray")},                    // count < 0
+		{n1024, I("newarray"), I("notify")},             // count reaches MAX_COUNT exactly
+		Prog{n1024, I("newarray"), I("toalt")}.add(pair...).add(setFromAlt(PushInt(0))...).add(I("fromalt"), I("notify")), // count > MAX_COUNT
+		rep(PushInt(1), 2048),               // full evaluation stack
+		rep(PushInt(1), 2049),               // ERR_OVER_STACK_LEN
+		rep(PushInt(1), 2048).add(I("put")), // GetContext cannot push
+		rep(PushInt(1), 2047).add(I("put")), // fits
+		rep(PushInt(1), 2048).add(I("dup")), //
+		rep(PushInt(1), 2048).add(I("toalt"), I("dupfromalt"), I("dupfromalt")),
+		{PushInt(3), I("newarray"), PushBytes(append(make([]byte, 32), 1)), I("pickitem")},       // 33-byte index: over MAX_INT_SIZE
+		{PushInt(3), I("newarray"), PushBytes([]byte{1, 0, 0, 0, 0, 0, 0, 0, 1}), I("pickitem")}, // not an int64
+		{PushInt(3), I("newarray"), PushBytes([]byte{2, 0, 0, 0, 0, 0, 0, 0}), I("pickitem")},    // 8-byte index 2
+		{PushInt(3), I("newarray"), PushBytes([]byte{0xff}), I("pickitem")},                      // -1
+		{PushBytes([]byte("abc")), PushInt(1), I("pickitem")},                                    // byte of a byte string
+		{PushBytes([]byte("abc")), PushInt(3), I("pickitem")},
+		{PushInt(16), PushInt(0), I("pickitem")}, // byte of an integer
+		{PushBytes([]byte("abc")), I("arraysize")}, {PushInt(0), I("arraysize")}, {I("newmap"), I("arraysize")},
+		{PushInt(3), I("newarray"), I("dup"), PushInt(1), I("remove"), I("arraysize")},
+		{PushInt(3), I("newarray"), PushInt(3), I("remove")},
+		{PushInt(1), PushInt(2), PushInt(3), PushInt(2), I("pick")}, {PushInt(1), PushInt(1), I("pick")}, {PushInt(1), PushInt(-1), I("pick")},
+		{I("newmap"), I("dup"), I("newmap"), PushInt(1), I("setitem")}, // a map as key
+		{I("newmap"), I("newmap"), I("haskey")}, {I("newmap"), I("newmap"), I("remove")}, {I("newmap"), I("newmap"), I("pickitem")},
+		{PushInt(1), I("append")}, {I("append")}, {PushInt(1), PushInt(1), I("append")}, {I("newmap"), PushInt(1), I("append")},
+		{PushInt(1), I("keys")}, {PushInt(0), I("newarray"), I("values")}, {I("keys")},
+		{PushInt(5), PushBytes([]byte("k")), I("put")}, {PushBytes([]byte("k")), I("put")}, {I("put")},
+		{I("newmap"), PushBytes([]byte("k")), I("put")}, {PushInt(1), I("newmap"), I("put")},
+		{PushBytes([]byte("v1")), PushBytes([]byte("k")), I("put"), PushBytes([]byte("v2")), PushBytes([]byte("k")), I("put"), PushInt(0), PushBytes([]byte("a")), I("put")}, // last write wins, sorted
+		{PushInt(0), I("notify"), PushInt(-1), I("notify"), PushBytes([]byte{0}), I("notify"), I("newmap"), PushInt(0), I("haskey"), I("notify")},
+		{I("serialize")}, {PushInt(0), I("serialize")}, {PushInt(-1), I("serialize")}, {PushInt(0), I("newarray"), I("serialize")}, {I("newmap"), I("serialize")},
+	} {
+		d.add(Input{Kind: "run", Name: "limits", Prog: p}, false)
+	}
+	// 3g. malformed stream
+	for k := 0; k < c.N(200, 2500); k++ {
+		d.add(Input{Kind: "run", Name: "soup", Prog: g.soup()}, false)
+	}
+	d.runAll(Repeats, c.N(3, 12))
+	d.judge()
+
+	// 4. Stringify (debug/testing only) on built values
+	for _, n := range []int{9, 10, 11} {
+		p := witnessProg(n)
+		d.stringifyCase(Input{Kind: "stringify", Name: "witness", Prog: p[:len(p)-1]})
+	}
+	for k := 0; k < c.N(60, 400); k++ {
+		var p Prog
+		switch g.n(4) {
+		case 0:
+			p = g.ambiguous(7+g.n(5), 1+g.n(2), g.n(2), g.n(2), false, 3)
+		default:
+			p = g.value(3)
+		}
+		d.stringifyCase(Input{Kind: "stringify", Name: "value", Prog: p})
+	}
+
+	// samples for the evidence file
+	for i, in := range d.inputs {
+		if i < 3 || in.Name == "witness-chain10" {
+			c.Sample(map[string]interface{}{"program": in.Prog.String(), "family": in.Name, "runs": describe(d.sets[i])})
+		}
+	}
+	keys := make([]string, 0)
+	for i, in := range d.inputs {
+		if len(d.sets[i].outs) > 1 {
+			keys = append(keys, in.Name)
+		}
+	}
+	sort.Strings(keys)
+	c.Note(fmt.Sprintf("programs: %d, each invoked %d times in fresh engines; %d of them also once in each of %d fresh processes; order-dependent programs: %d",
+		len(d.inputs), Repeats, len(d.childSel), c.N(3, 12), len(keys)))
 }
